@@ -48,7 +48,8 @@ issuer, holder and verifier still interoperate, round trips pass) while what it 
 specification for some inputs; eight areas (disclosure text and digest; the key-binding JWT; the JSON envelope; `_sd` /
 placeholders / `_sd_alg`; cnf; compact framing; salts and decoys; iss / exp / iat). This round tests whether the
 oracles are independent of the library: the harness computes digests, sd_hash, framing and (since this round) JWS
-signatures itself. Every change was confirmed here
+signatures itself — 10 of 24 would have been missed by the pre-round checks of the property aimed at (most of those
+were reported by another property's check). Every change was confirmed here
 (`tools/confirm_seed.sh` in a scratch worktree: demo passes without the change, 146/146 suite tests
 pass with it, demo fails with it) and run against all 16 quick checks in scratch copies
 (`tools/seedmatrix.sh`; `/repo` itself is never modified). Kept under `/verif/seeded/<name>/`
